@@ -26,6 +26,36 @@ def _scalar_int_index(i):
     return isinstance(i, Sym) and "loopvar" in i.tags and "int" in i.tags
 
 
+def _scalar_count(v):
+    """Numeric constants, lengths / sizes of arrays, and polynomials of those: zero-dimensional whatever the operands' shapes."""
+    if isinstance(v, Const):
+        return isinstance(v.value, (int, float, Fraction)) and not isinstance(v.value, bool)
+    if isinstance(v, App) and v.fn in ("len", "size", "ndim"):
+        return True
+    if isinstance(v, (Sym, App)) and to_poly(v) is None:
+        return False
+    p = to_poly(v)
+    if p is None or isinstance(v, Sym):
+        return False
+    return all(all(isinstance(a, App) and a.fn in ("len", "size", "ndim") for a, _e in m) for m, _c in p.t.items())
+
+
+def _pair_component(v, k, width):
+    """v[k] for v built by elementwise max/min from literal tuples (all of one length) and scalar counts; None otherwise."""
+    if type(v) is Tup:
+        if width[0] is None:
+            width[0] = len(v.items)
+        if len(v.items) != width[0] or not (-width[0] <= k < width[0]):
+            return None
+        return v.items[k]
+    if isinstance(v, App) and v.fn in ("max", "min") and not v.kw and len(v.args) >= 2:
+        parts = [a_ if _scalar_count(a_) else _pair_component(a_, k, width) for a_ in v.args]
+        if any(p_ is None for p_ in parts) or width[0] is None:
+            return None
+        return mk_app(v.fn, parts)
+    return None
+
+
 def _integer_valued(v):
     """Integer constants, symbols tagged `int`, lengths / counts, and integer polynomials of those."""
     if isinstance(v, Const):
@@ -198,6 +228,12 @@ def mk_app(fn, args=(), kw=()):
         return mk_app("getitem", [args[0], Const(None)])
     if fn == "getitem" and len(args) == 2:
         base, idx = args
+        if isinstance(idx, Const) and isinstance(idx.value, int) and not isinstance(idx.value, bool) and isinstance(base, App) \
+                and base.fn in ("max", "min") and not base.kw:
+            # component k of an elementwise max/min over literal pairs (a, b) and scalar counts is that max/min of the k-th components
+            comp = _pair_component(base, idx.value, [None])
+            if comp is not None:
+                return comp
         if _is_perm(idx):
             # permutation algebra: counts are elementwise in the needle, and a permutation followed by its inverse is the identity
             if isinstance(base, App) and base.fn in ("count_lt", "count_le") and len(base.args) == 2:
